@@ -22,8 +22,9 @@ type WriteDecision struct {
 }
 
 type WriteInfo struct {
-	Len int
-	Seq int
+	Len  int
+	Seq  int
+	Role string
 }
 
 // Writer is an http.ResponseWriter + http.Flusher.
@@ -81,7 +82,7 @@ func (w *Writer) Write(p []byte) (int, error) {
 	}
 	split := -1
 	if w.Park {
-		switch d := w.W.Park("write", fmt.Sprintf("%s#%03d", w.Name, seq), WriteInfo{Len: len(p), Seq: seq}).(type) {
+		switch d := w.W.Park("write", fmt.Sprintf("%s#%03d", w.Name, seq), WriteInfo{Len: len(p), Seq: seq, Role: core.GoroutineRole()}).(type) {
 		case WriteDecision:
 			if d.Fail {
 				w.mu.Lock()
@@ -99,7 +100,7 @@ func (w *Writer) Write(p []byte) (int, error) {
 		w.buf.Write(p[:split])
 		w.mu.Unlock()
 		w.W.Logf("write-part", w.Name, "%d of %d bytes", split, len(p))
-		if _, killed := w.W.Park("write-rest", fmt.Sprintf("%s#%03d", w.Name, seq), nil).(core.Kill); killed {
+		if _, killed := w.W.Park("write-rest", fmt.Sprintf("%s#%03d", w.Name, seq), WriteInfo{Role: core.GoroutineRole()}).(core.Kill); killed {
 			return split, ErrClientGone
 		}
 		w.mu.Lock()
